@@ -3,6 +3,7 @@ import QmiModel.Lemmas.C13Discard
 import QmiModel.Lemmas.C13NoLoss
 import QmiModel.Lemmas.C13Fuel
 import QmiModel.Lemmas.C13Udp
+import QmiModel.Lemmas.C13Timing
 /-!
 # C13 — instrument transports never lose, duplicate or reorder bytes
 
@@ -495,7 +496,7 @@ theorem open_close_state_machine (s : St) :
     (s.isOpen = true → step s .open = (s, .exc .invalidOp)) ∧
     (s.isOpen = false →
         ((step s .open).2 = .unit ∨ (step s .open).2 = .exc .timeout ∨ (step s .open).2 = .exc .osError) ∧
-        (step s .open).1.isOpen = decide ((step s .open).2 = .unit) ∧
+        ((step s .open).1.isOpen = true ↔ (step s .open).2 = .unit) ∧
         (step s .open).1.dev = s.dev ∧ (step s .open).1.clock = s.clock ∧ (step s .open).1.wlog = s.wlog) ∧
     (s.isOpen = false → step s .close = (s, .exc .invalidOp)) ∧
     (s.isOpen = true → (step s .close).2 = .unit ∧ (step s .close).1.isOpen = false ∧
@@ -505,16 +506,8 @@ theorem open_close_state_machine (s : St) :
   · intro h
     have hf := doOpen_flag s
     have hc := doOpen_cfg s
-    have he := doOpen_exc s
     simp only [step]
-    refine ⟨?_, by rw [hf, h]; simp, hc.2.2.2.1, hc.2.2.2.2.1, hc.2.2.2.2.2⟩
-    rcases he with he | he | he | he
-    · exact Or.inl he
-    · exfalso
-      simp only [doOpen, h, Bool.false_eq_true, if_false] at he
-      cases s.kind <;> cases s.openPlan.headD .ok <;> simp at he
-    · exact Or.inr (Or.inl he)
-    · exact Or.inr (Or.inr he)
+    exact ⟨doOpen_closed_out s h, by rw [hf, h]; simp, hc.2.2.2.1, hc.2.2.2.2.1, hc.2.2.2.2.2⟩
   · intro h; simp [step, doClose, h]
   · intro h; simp [step, doClose, h]
 
@@ -534,7 +527,10 @@ theorem failed_open_can_be_retried (s : St) (hc : s.isOpen = false) (hf : (step 
     step (step s .open).1 .close = ((step s .open).1, .exc .invalidOp) ∧
     (step (step s .open).1 .open).2 = .unit ∧ (step (step s .open).1 .open).1.isOpen = true := by
   have h1 : (step s .open).1.isOpen = false := by
-    rw [((open_close_state_machine s).2.1 hc).2.1]; simpa using hf
+    have := ((open_close_state_machine s).2.1 hc).2.1
+    cases hb : (step s .open).1.isOpen with
+    | false => rfl
+    | true => exact absurd (this.1 hb) hf
   exact ⟨h1, (open_close_state_machine _).2.2.1 h1, open_succeeds_when_os_allows _ h1 hp⟩
 
 /-- the open flag as a two-state machine driven by the op and its outcome -/
@@ -633,6 +629,26 @@ theorem written_run (ops : List Op) : ∀ (s : St),
     simp only [run, writtenRun]
     rw [ih, wlog_step, List.append_assoc]
 
+/-! ## deadlines of the serial transport -/
+
+/-- **A serial call never blocks longer than its time-out plus one device slice**: if every
+`Serial.read` of the script returns within `σ` ticks (pyserial's fixed `SERIAL_READ_TIMEOUT`), then
+`read`, `read_until` and `read_until_timeout` with time-out `t` are back at most `max t 0 + σ` after
+they started — whatever they return or raise, for every script, count and terminator. -/
+theorem serial_call_returns_by_deadline_plus_slice (σ : Nat) (s : St) (n : Nat) (term : Bytes) (t : Int)
+    (hk : s.kind = .serial) (hs : SliceLe σ s.dev) :
+    ((step s (.read n (some t))).1.clock : Int) ≤ s.clock + max t 0 + σ ∧
+    ((step s (.readUntil term (some t))).1.clock : Int) ≤ s.clock + max t 0 + σ ∧
+    ((step s (.readUntilTimeout n (some t))).1.clock : Int) ≤ s.clock + max t 0 + σ := by
+  simp only [step, hk, if_true]
+  exact ⟨serialRead_clock σ s n t hs, serialUntil_clock σ s term t hs, serialRut_clock σ s n t hs⟩
+
+/-- a non-blocking serial `read` (`t ≤ 0`) takes no time at all: it only reads what `in_waiting` reported -/
+theorem serial_nonblocking_read_takes_no_time (s : St) (n : Nat) (t : Int) (hk : s.kind = .serial) (ht : t ≤ 0) :
+    (step s (.read n (some t))).1.clock = s.clock := by
+  simp only [step, hk, if_true]
+  exact serialRead_nonblocking_clock s n t ht
+
 /-! ## non-vacuity: concrete reachable states exercising the hypotheses -/
 
 /-- a TCP stream "ab\r\ncd\r\n" in three packets, the terminator "\r\n" straddling the first two, with a
@@ -681,6 +697,35 @@ example : Fits udpWitness := by
   subst hev
   simp only [Res.data.injEq] at hl
   subst hl
+  decide
+
+-- `failed_open_can_be_retried`, `written_run`: connect time-out, connection refused, then success; a write is
+-- refused while closed and the successful ones reach the device in order
+def openDemo : List Op :=
+  [.planOpen .timeout, .planOpen .late, .open, .close, .open, .write [1], .open, .write [1, 2], .write [3], .close,
+   .write [4]]
+
+example : (run (init .tcp 0 512) openDemo).2 =
+    [.unit, .unit, .exc .timeout, .exc .invalidOp, .exc .osError, .exc .invalidOp, .unit, .unit, .unit, .unit,
+     .exc .invalidOp]
+    ∧ (run (init .tcp 0 512) openDemo).1.wlog = [[1, 2], [3]] := by decide
+
+example : (step { init .udp 4096 4096 with openPlan := [.early] } .open).2 = .exc .osError
+    ∧ (step { init .serial 0 0 with openPlan := [.late] } .open).2 = .exc .osError := by decide
+
+-- `serial_call_returns_by_deadline_plus_slice`: slice 3, time-out 2: the call is back after 4 ticks, within 2 + 3
+example : SliceLe 3 [⟨1, .timeout⟩, ⟨3, .timeout⟩, ⟨3, .timeout⟩]
+    ∧ (step { init .serial 0 0 with isOpen := true, dev := [⟨1, .timeout⟩, ⟨3, .timeout⟩, ⟨3, .timeout⟩] }
+        (.read 1 (some 2))).1.clock = 4 := by
+  refine ⟨?_, by decide⟩
+  intro ev hev
+  simp only [List.mem_cons, List.mem_nil_iff, or_false] at hev
+  rcases hev with rfl | rfl | rfl <;> decide
+
+-- observation (not part of C13): on the socket transports the deadline is tested after a successful receive,
+-- so `read(1, 0)` raises the time-out although the byte has just been received; it stays buffered
+example : (step { init .tcp 0 512 with isOpen := true, dev := [⟨1, .data [7]⟩] } (.read 1 (some 0))).2 = .exc .timeout
+    ∧ (step { init .tcp 0 512 with isOpen := true, dev := [⟨1, .data [7]⟩] } (.read 1 (some 0))).1.buf = [7] := by
   decide
 
 -- closed transport returning buffered data through socket `read_until` (the second disjunct is inhabited)
